@@ -76,13 +76,13 @@ fn check_crash(i: &Inst, p: &Prep, k: usize) -> CaseResult {
 }
 
 pub fn instances(ctx: &Ctx) -> Vec<Inst> {
-    let n = ctx.tier.pick(24, 120);
+    let n = ctx.tier.pick(400, 2000);
     let ls = sample(ctx.seed ^ 0xC17, n, &logical::logical(Gen { max_tiles: 200, allow_big: false, allow_adv: false, full_floats: false }));
     let mut out: Vec<Inst> = ls.into_iter().enumerate().map(|(k, mut l)| {
         l.settings.internal = 1 + (k % 4) as u8;
         Inst { l, asyncw: k % 2 == 1 }
     }).collect();
-    for k in 0..ctx.tier.pick(4, 12) {
+    for k in 0..ctx.tier.pick(8, 24) {
         // with leaf spill; uncompressed ones produce tens of thousands of operations (thorough tier)
         let internal = if ctx.tier == crate::engine::Tier::Quick { 2 + (k % 3) as u8 } else { 1 + (k % 4) as u8 };
         out.push(Inst { l: logical::large(14_000 + 1000 * k, 170 + k as u64, internal), asyncw: k % 2 == 0 });
